@@ -21,7 +21,14 @@ import "fmt"
 //        4: seeded random permutation per range instance
 const vnC18W = 1000000
 
-func HarnessC18(n, mode, wset, sched int) {
+func HarnessC18(n, mode, wset, sched int) { harnessC18(n, mode, wset, sched, 0) }
+
+// HarnessC18Hist — the search must also be exact on a graph that was searched
+// before and then mutated (one symbolic RemoveEdge / AddEdgeWeighted, also through
+// a reversed view), i.e. no stale state may survive between searches.
+func HarnessC18Hist(n, mode, wset, sched int) { harnessC18(n, mode, wset, sched, 1) }
+
+func harnessC18(n, mode, wset, sched, hist int) {
 	switch sched {
 	case 1:
 		vnScheduleDefault(vnFlip, 0)
@@ -74,6 +81,51 @@ func HarnessC18(n, mode, wset, sched int) {
 	}
 	vnNote(fmt.Sprintf("n=%d mode=%d wset=%d sched=%d edges: %s", n, mode, wset, sched, desc))
 
+	c18Oracle(&g, n, wset, &present, &w, "C18")
+	if hist == 0 {
+		return
+	}
+	// one symbolic mutation, then search again
+	a, b := c18ids[vnChoice("ma", n)], c18ids[vnChoice("mb", n)]
+	if a == b && mode != 0 {
+		vnAssume(false)
+	}
+	via := &g
+	if vnBool("viaReverse") {
+		// mutate through a reversed view (shares state): edge b->a of the view is a->b of g
+		via = g.Reverse()
+		a, b = b, a
+	}
+	if vnBool("remove") {
+		via.RemoveEdge(a, b)
+		if via != &g {
+			present[b][a] = false
+		} else {
+			present[a][b] = false
+		}
+		vnNoteAppend(fmt.Sprintf("| then RemoveEdge(%d,%d) viaReverse=%v", a, b, via != &g))
+	} else {
+		nw := vnInt("nw")
+		vnAssume(0 <= nw)
+		vnAssume(nw <= vnC18W)
+		via.AddEdgeWeighted(a, b, nw)
+		if via != &g {
+			present[b][a] = true
+			w[b][a] = nw
+		} else {
+			present[a][b] = true
+			w[a][b] = nw
+		}
+		vnNoteAppend(fmt.Sprintf("| then AddEdgeWeighted(%d,%d,nw) viaReverse=%v", a, b, via != &g))
+	}
+	c18Oracle(&g, n, wset, &present, &w, "C18.after-mutation")
+	vnCover("C18.search-after-mutation-checked")
+}
+
+var c18ids = [5]int{0, 1, 2, 3, 4}
+
+func c18Oracle(g *Graph, n, wset int, presentP *[5][5]bool, wP *[5][5]int, tag string) {
+	present, w := *presentP, *wP
 	dist, edgeTo := g.Dijkstra(0) // the real code
 
 	// reachability from 0 (presence is concrete on each path)
@@ -95,9 +147,9 @@ func HarnessC18(n, mode, wset, sched int) {
 		pred[v] = -1
 		if p := edgeTo[v]; p != nil {
 			pi, ok := p.(int)
-			vnAssert(ok, "C18.pred-is-vertex")
+			vnAssert(ok, tag+".pred-is-vertex")
 			if ok {
-				vnAssert(0 <= pi && pi < n, "C18.pred-in-range")
+				vnAssert(0 <= pi && pi < n, tag+".pred-in-range")
 				pred[v] = pi
 			}
 		}
@@ -107,20 +159,20 @@ func HarnessC18(n, mode, wset, sched int) {
 	for v := 0; v < n; v++ {
 		cur, steps := v, 0
 		for pred[cur] >= 0 && steps <= n {
-			vnAssert(present[pred[cur]][cur], "C18.pred-edge-exists")
+			vnAssert(present[pred[cur]][cur], tag+".pred-edge-exists")
 			cur = pred[cur]
 			steps++
 		}
-		vnAssert(steps <= n, "C18.pred-chain-acyclic")
+		vnAssert(steps <= n, tag+".pred-chain-acyclic")
 		if steps > n {
 			return
 		}
 		if reach[v] {
 			// (iii) the chain of a reached vertex ends at the source
-			vnAssert(cur == 0, "C18.reached-chain-ends-at-source")
+			vnAssert(cur == 0, tag+".reached-chain-ends-at-source")
 		} else {
 			// (iv) the chain of an unreached vertex never arrives at the source
-			vnAssert(cur != 0, "C18.unreached-chain-avoids-source")
+			vnAssert(cur != 0, tag+".unreached-chain-avoids-source")
 		}
 	}
 	vnCover("C18.structure-checked")
@@ -129,12 +181,12 @@ func HarnessC18(n, mode, wset, sched int) {
 	}
 
 	// (i) the source is at distance 0
-	vnAssert(dist[0] == 0, "C18.source-distance-zero")
+	vnAssert(dist[0] == 0, tag+".source-distance-zero")
 	// (ii) no tense edge among reached vertices: dist[v] <= dist[u] + w(u,v)
 	for u := 0; u < n; u++ {
 		for v := 0; v < n; v++ {
 			if present[u][v] && reach[u] {
-				vnAssert(dist[v] <= dist[u]+w[u][v], "C18.no-tense-edge")
+				vnAssert(dist[v] <= dist[u]+w[u][v], tag+".no-tense-edge")
 			}
 		}
 	}
@@ -148,7 +200,7 @@ func HarnessC18(n, mode, wset, sched int) {
 			sum += w[pred[cur]][cur]
 			cur = pred[cur]
 		}
-		vnAssert(sum == dist[v], "C18.witness-path-sums-to-distance")
+		vnAssert(sum == dist[v], tag+".witness-path-sums-to-distance")
 		vnTraceInt(fmt.Sprintf("dist[%d]", v), dist[v])
 		vnCover("C18.reached-vertex-checked")
 	}
@@ -158,17 +210,17 @@ func HarnessC18(n, mode, wset, sched int) {
 			continue
 		}
 		path := g.EdgeToPath(v, edgeTo)
-		vnAssert(len(path) >= 2, "C18.path-nonempty")
+		vnAssert(len(path) >= 2, tag+".path-nonempty")
 		if len(path) >= 2 {
-			vnAssert(path[0] == 0, "C18.path-starts-at-source")
-			vnAssert(path[len(path)-1] == v, "C18.path-ends-at-target")
+			vnAssert(path[0] == 0, tag+".path-starts-at-source")
+			vnAssert(path[len(path)-1] == v, tag+".path-ends-at-target")
 			for k := 0; k+1 < len(path); k++ {
 				a, aok := path[k].(int)
 				b, bok := path[k+1].(int)
 				if aok && bok {
-					vnAssert(present[a][b], "C18.path-edge-exists")
+					vnAssert(present[a][b], tag+".path-edge-exists")
 				} else {
-					vnAssert(false, "C18.path-vertex-type")
+					vnAssert(false, tag+".path-vertex-type")
 				}
 			}
 		}
